@@ -1,8 +1,16 @@
 -------------------------------- MODULE WfLit --------------------------------
 (* What parsing `<field> <op> T` must do for a candidate literal text T (code points), per    *)
 (* context kind: "int" (i == T), "bytes" (s == T), "index" (ai[T] == 1), "key" (mi[T] == 1).  *)
+(* "ipeq" (ip == T) and "ipitem" (ip in {T}) for addresses, CIDR blocks and address ranges.  *)
 (* Expected == [ok, v]: accepted iff T is, in its entirety, one well-formed literal.          *)
-EXTENDS WfLexLit
+(* For the IP kinds ok is "yes" / "no" / "unspec" (short IPv4 forms are not judged) and the   *)
+(* value is [a, b, len]: address (a = b, len = bits), block (a = b = network), range (len 0). *)
+EXTENDS WfLexIp
+ExpectedIp(kind, T) ==
+  LET r == IF kind = "ipeq" THEN LexIpAddr(T) ELSE LexIpItem(T) IN
+  IF r.ok = "yes" THEN (IF r.n = Len(T) THEN [ok |-> "yes", v |-> r.v] ELSE [ok |-> "no"])
+  ELSE IF r.ok = "unspec" THEN [ok |-> "unspec"]
+  ELSE [ok |-> "no"]
 Expected(kind, T) ==
   IF kind = "int"
   THEN LET r == LexInt(T) IN IF Whole(r, T) THEN [ok |-> TRUE, v |-> r.v] ELSE [ok |-> FALSE, v |-> <<>>]
